@@ -269,14 +269,49 @@ def crc32(ck, S):
                              or (e.get("k") == "unop" and e.get("op") == "~" and is_ref_to(e.get("e"), crcv["decl"])))
     ck.ob("C08-O4", sitestr(fn, rs[0]) if rs else sitestr(fn), okf, "final xor 0xFFFFFFFF" if okf else "result is %s" % describe(e), key="calculateCRC32|final-xor")
     # table
+    import re as _re
     tab = None
+    TABS = set()
     for n in fn.find(lambda n: n.get("k") == "decl"):
         for v in n.get("vars", []):
-            if "[256]" in (v.get("type") or ""):
+            t_ = v.get("type") or ""
+            if "[256]" in t_ or _re.search(r"std::array<[^<>]*, 256>", t_):
                 tab = v
+                TABS.add(v["decl"])
     ck.ob("C08-O4", sitestr(fn), True if tab is not None else None, "256-entry table" if tab else "no 256-entry table found in the CRC code; idiom not recognised", key="calculateCRC32|table-size")
     if tab is None:
         return
+
+    def is_tab(x):
+        """x designates the table: the array itself, a reference to it, or the value a spliced accessor returns"""
+        x = skip_copies(x) if isinstance(x, dict) else None
+        for _ in range(6):
+            if not isinstance(x, dict):
+                return False
+            if x.get("k") == "ref" and x.get("decl") in TABS:
+                _, var_ = local_var(fn, x["decl"])
+                i_ = skip_copies(var_.get("init")) if var_ and isinstance(var_.get("init"), dict) else None
+                if i_ is None or not (i_.get("k") in ("ref", "call")):
+                    return True
+                return True
+            y = skip_copies(deref_local(fn, x))
+            if y is x or y.get("id") == x.get("id"):
+                return False
+            x = y
+        return False
+
+    def elem(p_):
+        """(base, index) of an element access: built-in subscript, operator[] or at()"""
+        p_ = skip_copies(p_) if isinstance(p_, dict) else None
+        if not isinstance(p_, dict):
+            return None
+        if p_.get("k") == "subscript":
+            return p_.get("base"), p_.get("idx")
+        if p_.get("k") == "call" and p_.get("op") == "[]" and len(p_.get("args", [])) == 2:
+            return p_["args"][0], p_["args"][1]
+        if p_.get("k") == "call" and p_.get("ck") == "member" and (p_.get("callee") or "").split("::")[-1] in ("at", "operator[]") and len(p_.get("args", [])) == 1:
+            return p_.get("obj"), p_["args"][0]
+        return None
     # update idiom
     upd = [n for n in fn.find(lambda n: n.get("k") == "binop" and n.get("op") == "=" and is_ref_to(n.get("lhs"), crcv["decl"]))]
     # `crc = helper(crc, ...)` only hands the register through a spliced helper; the real update is inside it
@@ -287,17 +322,17 @@ def crc32(ck, S):
         r = skip_copies(upd[0].get("rhs"))
         if r.get("k") == "binop" and r.get("op") == "^":
             parts = [skip_copies(r.get("lhs")), skip_copies(r.get("rhs"))]
-            sub = [p for p in parts if p.get("k") == "subscript" and (is_ref_to(p.get("base"), tab["decl"]) or is_ref_to(deref_local(fn, p.get("base")), tab["decl"]))]
+            sub = [p for p in parts if elem(p) is not None and is_tab(elem(p)[0])]
             shr = [p for p in parts if p.get("k") == "binop" and p.get("op") == ">>" and is_ref_to(p.get("lhs"), crcv["decl"]) and const_int(p.get("rhs")) == 8]
             if sub and shr:
-                idx = skip_copies(sub[0].get("idx"))
+                idx = skip_copies(elem(sub[0])[1])
                 if idx.get("k") == "binop" and idx.get("op") == "&" and 0xFF in (const_int(idx.get("lhs")), const_int(idx.get("rhs"))):
                     x = skip_copies(idx.get("lhs")) if const_int(idx.get("rhs")) == 0xFF else skip_copies(idx.get("rhs"))
                     if x.get("k") == "binop" and x.get("op") == "^" and (is_ref_to(x.get("lhs"), crcv["decl"]) or is_ref_to(x.get("rhs"), crcv["decl"])):
                         byte = skip_copies(x.get("rhs")) if is_ref_to(x.get("lhs"), crcv["decl"]) else skip_copies(x.get("lhs"))
                         while byte.get("k") == "cast":
                             byte = skip_copies(byte.get("e"))
-                        if byte.get("k") == "subscript":
+                        if elem(byte) is not None:
                             okupd = True
                             why = ""
                         else:
@@ -330,7 +365,7 @@ def crc32(ck, S):
             okl = okl and any(is_call(x, ("atEnd",)) for x in walk(co))
         ck.ob("C08-O4", sitestr(fn, upd[0]), okl if (okl or len(loops) == 2) else None, "every byte returned by read() is folded in, until atEnd()" if okl else "the CRC loops do not cover every byte read %s" % det, key="calculateCRC32|coverage")
     # table generation: 256 x 8 steps
-    gen = [n for n in fn.find(lambda n: n.get("k") == "binop" and n.get("op") == "=" and skip_copies(n.get("lhs")).get("k") == "subscript" and is_ref_to(skip_copies(n.get("lhs")).get("base"), tab["decl"]))]
+    gen = [n for n in fn.find(lambda n: n.get("k") == "binop" and n.get("op") == "=" and elem(n.get("lhs")) is not None and is_tab(elem(n.get("lhs"))[0]))]
     okg = False
     n8 = n256 = step = False
     if len(gen) == 1:
